@@ -352,7 +352,7 @@ theorem facUpdateConfig_codes {w w' : World} {sender : Nat} {o tc pc : Option Na
   exact ⟨rfl, rfl⟩
 
 theorem facCreatePair_ok {w w' : World} {sender : Nat} {a0 a1 : Asset} {req : Requirements} {comm : Option Nat}
-    {np nl : Nat} (h : facCreatePair w sender a0 a1 req comm np nl = .ok w') :
+    {lpDec : Option Nat} {np nl : Nat} (h : facCreatePair w sender a0 a1 req comm lpDec np nl = .ok w') :
     sender = w.owner ∧ Keep w w' := by
   unfold facCreatePair at h
   split at h
@@ -370,6 +370,11 @@ theorem facCreatePair_ok {w w' : World} {sender : Nat} {a0 a1 : Asset} {req : Re
   obtain ⟨d0, _, d1, _, h⟩ := h
   split at h
   · cases h
+  split at h
+  · cases h
+  have h' : ∃ cb : Bool, (if cb = true then (.error .err : M World) else _) = .ok w' := ⟨_, h⟩
+  clear h
+  obtain ⟨cb, h⟩ := h'
   split at h
   · cases h
   injection h with h
@@ -455,7 +460,7 @@ theorem facExec_ok {w w' : World} {s : Nat} {funds : List (Nat × Nat)} {m : Fac
     cases o with
     | none => exact .inl (k0.trans ⟨ho, hf, hr⟩)
     | some o => exact .inr ⟨o, tc, pc, rfl, ho⟩
-  | createPair a0 a1 req comm np nl =>
+  | createPair a0 a1 req comm lpDec np nl =>
     obtain ⟨hs, k⟩ := facCreatePair_ok h
     exact ⟨hs.trans k0.owner, .inl (k0.trans k)⟩
   | addDecimals d k =>
